@@ -366,6 +366,10 @@ class WFSA:
             new.add_I(i, self.start[i] * V[i])
             new.add_F(i, V[i] ** (-1) * self.stop[i])
             for a, j, w in self.arcs(i):
+                if V[j] == self.R.zero:
+                    # dead target: the pushed arc would carry weight zero (and a
+                    # zero-mass subset makes determinize divide by zero)
+                    continue
                 new.add_arc(i, a, j, V[i] ** (-1) * w * V[j])
         return new
 
